@@ -2299,3 +2299,197 @@ Proof.
   - rewrite Ht. reflexivity.
   - destruct Ht as (a' & -> & _). reflexivity.
 Qed.
+
+Section OneArgument.
+  Variable T : Type.
+  Variable next : arguments -> res aerr T -> res aerr (T * arguments).
+  Variable P : list N -> res aerr T.
+  Hypothesis next_stream : forall a r d, Stream a r -> arg_count a < 255 ->
+    match words r with
+    | [] => next a d = (do x <- d; Ok (x, a))
+    | w :: ws => exists a', Stream a' (after_word r) /\ words (after_word r) = ws /\
+                            arg_count a' = arg_count a + 1 /\
+                            next a d = (do x <- P w; Ok (x, a'))
+    end.
+
+  (** A command with one (optional or mandatory) argument. *)
+  Lemma one_argument : forall (mk : T -> command) a r d n, Stream a r -> arg_count a < 250 ->
+    (do la <- next a d; let '(l, a') := la in finish a' n (mk l)) =
+    match words r with
+    | [] => do x <- d; Ok (mk x)
+    | [w] => do x <- P w; Ok (mk x)
+    | w :: _ :: _ => do x <- P w; Err (TooManyArguments n (arg_count a + 1 + 1))
+    end.
+  Proof.
+    intros mk a r d n Hs H0. assert (Hlt : arg_count a < 255) by lia.
+    pose proof (next_stream a r d Hs Hlt) as Hn.
+    destruct (words r) as [|w ws] eqn:Ew.
+    - rewrite Hn. destruct d as [x|e|p|q]; simpl; try reflexivity.
+      rewrite (finish_stream a r) by (auto; lia). rewrite Ew. reflexivity.
+    - destruct Hn as (a' & Hs' & Ew' & Hc' & ->). destruct (P w) as [x|e|p|q]; simpl; try (destruct ws; reflexivity).
+      rewrite (finish_stream a' (after_word r)) by (auto; lia). rewrite Ew'.
+      destruct ws; [reflexivity|]. rewrite Hc'. reflexivity.
+  Qed.
+End OneArgument.
+
+Lemma ValueSyn_functional : forall w v v', ValueSyn w v -> ValueSyn w v' -> v = v'.
+Proof. intros w v v' H H'. apply P_int_iff in H, H'. congruence. Qed.
+Lemma MemLocSyn_functional : forall w m m', MemLocSyn w m -> MemLocSyn w m' -> m = m'.
+Proof. intros w m m' H H'. apply P_mem_iff in H, H'. congruence. Qed.
+Lemma LocSyn_functional : forall w l l', LocSyn w l -> LocSyn w l' -> l = l'.
+Proof. intros w l l' H H'. apply P_loc_iff in H, H'. congruence. Qed.
+
+Lemma ArgsSyn_functional : forall c ws cmd cmd', ArgsSyn c ws cmd -> ArgsSyn c ws cmd' -> cmd = cmd'.
+Proof.
+  intros c ws cmd cmd' H H'. inversion H; subst; inversion H'; subst; try reflexivity;
+    repeat match goal with
+    | A : ValueSyn ?w _, B : ValueSyn ?w _ |- _ => rewrite (ValueSyn_functional _ _ _ A B) in *; clear A
+    | A : MemLocSyn ?w _, B : MemLocSyn ?w _ |- _ => rewrite (MemLocSyn_functional _ _ _ A B) in *; clear A
+    | A : LocSyn ?w _, B : LocSyn ?w _ |- _ => rewrite (LocSyn_functional _ _ _ A B) in *; clear A
+    end; reflexivity.
+Qed.
+
+(** [r] is what the model answers, [S] what the grammar allows: an accepted answer is allowed, and
+    if the model does not accept then nothing is allowed. *)
+Definition decides {E A} (r : res E A) (S : A -> Prop) : Prop :=
+  match r with
+  | Ok a => S a
+  | _ => forall a, ~ S a
+  end.
+
+Lemma decides_no_arg : forall a r c name, Stream a r -> arg_count a = 0 ->
+  ArgsSyn name [] c -> (forall w ws cmd, ~ ArgsSyn name (w :: ws) cmd) ->
+  decides (finish a 0 c) (ArgsSyn name (words r)).
+Proof.
+  intros a r c name Hs H0 Hyes Hno. rewrite (finish_stream a r) by (auto; lia).
+  destruct (words r); simpl; [exact Hyes|]. intros cmd. apply Hno.
+Qed.
+
+Lemma decides_one : forall T (P : list N -> res aerr T) (S : list N -> T -> Prop) (mk : T -> command)
+    (name : cname) (d : res aerr T) (ws : list (list N)),
+  (forall w x, P w = Ok x <-> S w x) ->
+  (forall cmd, ArgsSyn name [] cmd <-> exists x, d = Ok x /\ cmd = mk x) ->
+  (forall w cmd, ArgsSyn name [w] cmd <-> exists x, S w x /\ cmd = mk x) ->
+  (forall w w' ws cmd, ~ ArgsSyn name (w :: w' :: ws) cmd) ->
+  forall n k,
+  decides (match ws with
+           | [] => do x <- d; Ok (mk x)
+           | [w] => do x <- P w; Ok (mk x)
+           | w :: _ :: _ => do x <- P w; Err (TooManyArguments n k)
+           end) (ArgsSyn name ws).
+Proof.
+  intros T P S mk name d ws HP H0 H1 H2 n k. destruct ws as [|w [|w' ws']].
+  - destruct d as [x|e|p|q]; simpl; try (apply H0; eauto; fail);
+      intros cmd Hc; apply H0 in Hc; destruct Hc as (x & Hx & _); discriminate.
+  - destruct (P w) as [x|e|p|q] eqn:E; simpl;
+      try (apply H1; exists x; split; [apply HP; exact E|reflexivity]);
+      intros cmd Hc; apply H1 in Hc; destruct Hc as (x & Hx & _); apply HP in Hx; congruence.
+  - destruct (P w); simpl; intros cmd; apply H2.
+Qed.
+
+Ltac no_args_case Hs H0 :=
+  apply decides_no_arg; [exact Hs|exact H0|constructor|intros w ws cmd Hx; inversion Hx].
+
+Lemma parse_arguments_spec : forall name a r, Stream a r -> arg_count a = 0 ->
+  name <> Eval -> name <> Echo ->
+  decides (parse_arguments name a) (ArgsSyn name (words r)).
+Proof.
+  intros name a r Hs H0 HnE HnC. assert (H250 : arg_count a < 250) by lia.
+  unfold parse_arguments, next_location_or_default, next_location, next_memory_location,
+    next_memory_location_or_default, next_integer, next_positive_integer_or_default.
+  destruct name; try congruence.
+  - simpl. constructor.
+  - no_args_case Hs H0.
+  - (* step into *)
+    assert (Eassoc :
+      (do ca <- (do va <- next_integer_or a (Ok 1%Z); let '(v, a') := va in Ok (Z.max v 1, a'));
+       let '(count, a') := ca in finish a' 1 (CStepInto count)) =
+      (do la <- next_integer_or a (Ok 1%Z); let '(l, a') := la in finish a' 1 (CStepInto (Z.max l 1)))).
+    { destruct (next_integer_or a (Ok 1%Z)) as [[v a']|e|p|q]; reflexivity. }
+    rewrite Eassoc.
+    rewrite (one_argument Z next_integer_or P_int next_integer_or_stream (fun v => CStepInto (Z.max v 1)) a r _ 1 Hs H250).
+    apply (decides_one Z P_int ValueSyn (fun v => CStepInto (Z.max v 1)) StepInto (Ok 1%Z)).
+    + exact P_int_iff.
+    + intros cmd. split.
+      * intros Hx. inversion Hx; subst. exists 1%Z. split; reflexivity.
+      * intros (x & Hx & ->). inversion Hx; subst. apply A_stepinto_default.
+    + intros w cmd. split.
+      * intros Hx. inversion Hx; subst. eauto.
+      * intros (x & Hx & ->). constructor. exact Hx.
+    + intros w w' ws cmd Hx. inversion Hx.
+  - no_args_case Hs H0.
+  - no_args_case Hs H0.
+  - no_args_case Hs H0.
+  - (* print *)
+    rewrite (one_argument location next_location_or P_loc next_location_or_stream CPrint a r _ 1 Hs H250).
+    apply (decides_one location P_loc LocSyn CPrint Print (Ok (LMemory (MPcOffset 0)))).
+    + exact P_loc_iff.
+    + intros cmd. split.
+      * intros Hx. inversion Hx; subst. eexists. split; reflexivity.
+      * intros (x & Hx & ->). inversion Hx; subst. constructor.
+    + intros w cmd. split.
+      * intros Hx. inversion Hx; subst. eauto.
+      * intros (x & Hx & ->). constructor. exact Hx.
+    + intros w w' ws cmd Hx. inversion Hx.
+  - (* move *)
+    assert (Hlt : arg_count a < 255) by lia.
+    pose proof (next_location_or_stream a r (Err (MissingArgument 2 (arg_count a))) Hs Hlt) as Hn.
+    destruct (words r) as [|w ws] eqn:Ew.
+    { rewrite Hn. simpl. intros cmd Hx. inversion Hx. }
+    destruct Hn as (a1 & Hs1 & Ew1 & Hc1 & ->).
+    destruct (P_loc w) as [l|e|p|q] eqn:El; simpl;
+      try (intros cmd Hx; inversion Hx; subst;
+           match goal with Hl : LocSyn w _ |- _ => apply P_loc_iff in Hl; congruence end).
+    assert (H1 : arg_count a1 < 250) by lia.
+    rewrite (one_argument Z next_integer_or P_int next_integer_or_stream (CMove l) a1 (after_word r) _ 2 Hs1 H1).
+    rewrite Ew1. apply P_loc_iff in El.
+    destruct ws as [|u [|u' ws']].
+    + simpl. intros cmd Hx. inversion Hx.
+    + destruct (P_int u) as [v|e|p|q] eqn:Ev; simpl;
+        try (intros cmd Hx; inversion Hx; subst;
+             match goal with Hv : ValueSyn u _ |- _ => apply P_int_iff in Hv; congruence end).
+      constructor; [exact El|apply P_int_iff; exact Ev].
+    + destruct (P_int u); simpl; intros cmd Hx; inversion Hx.
+  - (* goto *)
+    rewrite (one_argument memloc next_memory_location_or P_mem next_memory_location_or_stream CGoto a r _ 1 Hs H250).
+    apply (decides_one memloc P_mem MemLocSyn CGoto Goto (Err (MissingArgument 1 (arg_count a)))).
+    + exact P_mem_iff.
+    + intros cmd. split; [intros Hx; inversion Hx|intros (x & Hx & _); discriminate].
+    + intros w cmd. split.
+      * intros Hx. inversion Hx; subst. eauto.
+      * intros (x & Hx & ->). constructor. exact Hx.
+    + intros w w' ws cmd Hx. inversion Hx.
+  - (* assembly *)
+    rewrite (one_argument memloc next_memory_location_or P_mem next_memory_location_or_stream CAssembly a r _ 1 Hs H250).
+    apply (decides_one memloc P_mem MemLocSyn CAssembly Assembly (Ok (MPcOffset 0))).
+    + exact P_mem_iff.
+    + intros cmd. split.
+      * intros Hx. inversion Hx; subst. eexists. split; reflexivity.
+      * intros (x & Hx & ->). inversion Hx; subst. constructor.
+    + intros w cmd. split.
+      * intros Hx. inversion Hx; subst. eauto.
+      * intros (x & Hx & ->). constructor. exact Hx.
+    + intros w w' ws cmd Hx. inversion Hx.
+  - no_args_case Hs H0.
+  - no_args_case Hs H0.
+  - no_args_case Hs H0.
+  - no_args_case Hs H0.
+  - (* break add *)
+    rewrite (one_argument memloc next_memory_location_or P_mem next_memory_location_or_stream CBreakAdd a r _ 1 Hs H250).
+    apply (decides_one memloc P_mem MemLocSyn CBreakAdd BreakAdd (Err (MissingArgument 1 (arg_count a)))).
+    + exact P_mem_iff.
+    + intros cmd. split; [intros Hx; inversion Hx|intros (x & Hx & _); discriminate].
+    + intros w cmd. split.
+      * intros Hx. inversion Hx; subst. eauto.
+      * intros (x & Hx & ->). constructor. exact Hx.
+    + intros w w' ws cmd Hx. inversion Hx.
+  - (* break remove *)
+    rewrite (one_argument memloc next_memory_location_or P_mem next_memory_location_or_stream CBreakRemove a r _ 1 Hs H250).
+    apply (decides_one memloc P_mem MemLocSyn CBreakRemove BreakRemove (Err (MissingArgument 1 (arg_count a)))).
+    + exact P_mem_iff.
+    + intros cmd. split; [intros Hx; inversion Hx|intros (x & Hx & _); discriminate].
+    + intros w cmd. split.
+      * intros Hx. inversion Hx; subst. eauto.
+      * intros (x & Hx & ->). constructor. exact Hx.
+    + intros w w' ws cmd Hx. inversion Hx.
+Qed.
